@@ -105,11 +105,54 @@ PHSTAT = {
     "pp:phstat-base": ("pp", "EQUILIBRIUM_PHASES 1\n Fix_pH -9.5 NaOH 10\n"),
     "pp:phstat-acid": ("pp", "EQUILIBRIUM_PHASES 1\n Fix_pH -4.0 HCl 10\n"),
 }
+PHSTAT["ga:fixV-co2zero"] = ("ga", "GAS_PHASE 1\n -fixed_volume\n -volume 0.5\n -temperature 25\n CO2(g) 0\n N2(g) 0.5\n")      # lists a component with no moles
+PHSTAT["ga:fixP-co2zero"] = ("ga", "GAS_PHASE 1\n -fixed_pressure\n -pressure 1.0\n -volume 1.0\n -temperature 25\n CO2(g) 0\n N2(g) 1.0\n")
 KIN_STEPS = {"ki:calcite": 2, "ki:zero": 1}
+# a cell without carbon and sulfur in an instance that has already equilibrated another water (3) with a CO2-bearing gas and
+# calcite + gypsum: reactants attached to cell 1 then list components whose elements the cell does not contain
+INIT["lean"] = RATES + PUNCH + """SOLUTION 1
+ temp 25
+ pH 7
+ Na 10
+ K 1
+ Cl 11 charge
+SOLUTION 2
+ temp 15
+ pH 5
+ Na 1
+ K 2
+ Mg 0.5
+ Cl 3.5
+ -water 0.5
+END
+SOLUTION 3
+ pH 7
+ Ca 2
+ C(4) 4
+ S(6) 1
+ Na 2 charge
+GAS_PHASE 3
+ -fixed_volume
+ -volume 0.5
+ CO2(g) 0.05
+ N2(g) 0.5
+ O2(g) 0.1
+EQUILIBRIUM_PHASES 3
+ Calcite 0 0.01
+ Gypsum 0 0.01
+SOLID_SOLUTIONS 3
+ CaSrCO3
+ -comp Calcite 0.001
+ -comp Strontianite 0.0001
+END
+DELETE
+ -cells 3
+END
+"""
 # a second initial cell that already holds one reactant of every kind (definitions only - no step has been run)
 FULL = ["pp:calcite+co2", "ex:X-equil", "su:ddl-equil", "ga:fixV", "ss:ideal", "ki:calcite"]
 INIT["full"] = INIT["plain"] + "".join(ATTACH[o][1] for o in FULL) + "END\n"
-INIT_MODEL = {"plain": ((), None), "full": (tuple(ATTACH[o][0] for o in FULL), "ki:calcite")}
+INIT_MODEL = {"plain": ((), None), "lean": ((), None), "full": (tuple(ATTACH[o][0] for o in FULL), "ki:calcite")}
 
 REACTANTS = {            # name -> (stoichiometry lines, unit amount, units word)
     "NaCl": ([("NaCl", 1.0)], 1.0, "mmol"),
@@ -622,6 +665,9 @@ def run(tier):
                [("full alphabet", "plain", m, allops, 3) for m in ("use", "cells")]
     for name, init, mode, ops, depth in plan:
         bfs(name, init, mode, ops, depth, ev, findings, pool, dl, stats)
+    lean_ops = [o for o in allops if o in ATTACH or o in PHSTAT or o in ("rx:NaCl:1", "rx:CO2:1", "rx:H2O-:1", "mix:half", "temp:60")]
+    for m in ("use", "cells"):
+        bfs("attach ops + 5 steps on the carbon- and sulfur-free cell of a used instance", "lean", m, lean_ops, 2, ev, findings, pool, dl, stats)
     # the specific-ion-interaction databases drive the same steps through model_pz / model_sit
     for db in ("pitzer.dat", "sit.dat"):
         for m in (("use",) if tier == "quick" else ("use", "cells")):
